@@ -35,18 +35,18 @@ def gen_message(rng, source, real=False, allow_newline=True):
         else:
             parts.append(rng.choice(SPECIALS))
     msg = (" " if rng.random() < 0.7 else "").join(parts)
-    if source == "config":
-        msg = msg.strip("'\" ")    # the loader strips these at both ends by design of the INI syntax (DESIGN 6.12)
-    if real:
-        # keep it invariant under git's own --cleanup=whitespace
-        lines = [ln.rstrip() for ln in msg.split("\n")]
-        lines = [ln for ln in lines if ln and not ln.startswith("#")]
-        msg = "\n".join(lines).strip()
-    if source == "config":
-        msg = msg.strip("'\" ")
+    for _ in range(8):
+        before = msg
+        if source == "config":
+            msg = msg.strip("'\" ")    # the loader strips these at both ends by design of the INI syntax (DESIGN 6.12)
         if real:
-            msg = msg.strip().strip("'\" ")
-    if not msg or msg.strip("'\" ") == "":
+            # keep it invariant under git's own message cleanup (trailing blanks, empty lines, '#' comment lines)
+            lines = [ln.strip() if source == "config" else ln.rstrip() for ln in msg.split("\n")]
+            lines = [ln for ln in lines if ln.strip() and not ln.lstrip().startswith("#")]
+            msg = "\n".join(lines).strip()
+        if msg == before:
+            break
+    if not msg or msg.strip("'\" ") == "" or (real and msg.lstrip().startswith("#")):
         msg = "bump {new_version}"
     return msg
 
